@@ -1,3 +1,10 @@
+import os
 import sys
+
+if os.environ.get('PYTHONHASHSEED') != '0':
+    # deterministic set/dict iteration order -> identical VC text on every run -> identical solver behaviour
+    os.environ['PYTHONHASHSEED'] = '0'
+    os.execv(sys.executable, [sys.executable, '-m', 'pvc'] + sys.argv[1:])
+
 from .runner import main
 sys.exit(main())
